@@ -81,6 +81,12 @@ def rewire(n, rng):
                     moved += 1
             for p in pins:
                 x = rng.random()
+                if x > 0.96 and isinstance(p, sdn.InnerPin) and p.wire is not None and p.port is not None and len(p.port.pins) > 1:
+                    # a wired port pin is removed from its port: it stays on its wire, belonging to no port - a left-over that later
+                    # pins of that wire stand behind
+                    p.port.remove_pin(p)
+                    moved += 1
+                    continue
                 if x < 0.25:
                     # every spelling of the public API: the pin object itself or, for an instance pin, a by-value handle
                     # built from (instance, inner pin); single and bulk calls
@@ -216,6 +222,8 @@ def check_netlist(ctx, i, rng, n, st, phase):
         for pin in w.pins:
             if isinstance(pin, sdn.OuterPin):
                 exp.add(ids(s[:-2] + (pin.instance, pin.inner_pin.port, pin.inner_pin)))
+            elif pin.port is None:
+                ctx.count("portless_pins_on_traced_wires")      # a pin removed from its port while wired: no hierarchical pin stands for it
             else:
                 has_port_pin = True
                 exp.add(ids(s[:-2] + (pin.port, pin)))
